@@ -40,10 +40,11 @@ ANY_VALUE = {"obj": "W", "fields": [["any", {"any": {"qname": "w1", "text": None
 # --- a wrapped list inside a class that is decoded through bind_best_dataclass
 WRAP_DESC = {"classes": [
     {"name": "B", "fields": [_f("items", {"list": "int"}, {"type": "Element", "name": "item", "wrapper": "items"}, **LIST)]},
-    {"name": "BExt", "bases": ["B"], "fields": [_f("extra", {"opt": "str"}, **NONE)]},
+    {"name": "BExt", "bases": ["B"], "fields": [_f("extra", "str")]},   # required: `{"items": …}` alone only binds to B
     {"name": "P", "fields": [_f("c", {"cls": "B"})]},
 ]}
 WRAP_VALUE = {"obj": "P", "fields": [["c", {"obj": "B", "fields": [["items", {"list": [{"int": 1}]}]]}]]}
+WRAP_GOOD = {"obj": "P", "fields": [["c", {"obj": "BExt", "fields": [["items", {"list": [{"int": 1}]}], ["extra", {"str": "x"}]]}]]}
 
 # --- a compound field whose int choice precedes the str choice
 COMP_DESC = {"classes": [
@@ -83,7 +84,7 @@ OK_VALUE = {"obj": "Doc", "fields": [
 WITNESSES = {
     "sub": (SUB_DESC, {"value": SUB_VALUE, "other": SUB_OTHER, "good": SUB_GOOD}),
     "anyw": (ANY_DESC, {"value": ANY_VALUE}),
-    "wrap": (WRAP_DESC, {"value": WRAP_VALUE}),
+    "wrap": (WRAP_DESC, {"value": WRAP_VALUE, "good": WRAP_GOOD}),
     "comp": (COMP_DESC, {"value": COMP_VALUE, "changed": COMP_CHANGED}),
     "der": (DER_DESC, {"value": DER_VALUE}),
     "okw": (OK_DESC, {"value": OK_VALUE}),
